@@ -440,9 +440,6 @@ func (s *S3Proxy) ListMultipartUploads(ctx context.Context, input *s3.ListMultip
 	if input.KeyMarker != nil && *input.KeyMarker == "" {
 		input.KeyMarker = nil
 	}
-	if input.MaxUploads != nil && *input.MaxUploads == 0 {
-		input.MaxUploads = nil
-	}
 	if input.Prefix != nil && *input.Prefix == "" {
 		input.Prefix = nil
 	}
@@ -501,9 +498,6 @@ func (s *S3Proxy) ListMultipartUploads(ctx context.Context, input *s3.ListMultip
 func (s *S3Proxy) ListParts(ctx context.Context, input *s3.ListPartsInput) (s3response.ListPartsResult, error) {
 	if input.ExpectedBucketOwner != nil && *input.ExpectedBucketOwner == "" {
 		input.ExpectedBucketOwner = nil
-	}
-	if input.MaxParts != nil && *input.MaxParts == 0 {
-		input.MaxParts = nil
 	}
 	if input.PartNumberMarker != nil && *input.PartNumberMarker == "" {
 		input.PartNumberMarker = nil
